@@ -9,6 +9,7 @@
    assumed pairwise distinct, as in any component graph). *)
 From Coq Require Export QArith Qabs.
 From Verif Require Export model.Common.
+From Verif Require Import gen.DistConst.   (* T-tie: constants regenerated from /repo on every run *)
 Open Scope Q_scope.
 
 (* ---------------------------------------------------------------- numbers *)
@@ -19,7 +20,7 @@ Definition qsum (l : list Q) : Q := fold_right Qplus 0 l.
 Definition qmaxl (l : list Q) : Q := match l with [] => 0 | x :: t => fold_left qmax t x end.
 Definition qminl (l : list Q) : Q := match l with [] => 0 | x :: t => fold_left qmin t x end.
 
-Definition eps : Q := 1 # 1000000000.      (* is_close_to_zero: abs_tol = 1e-9 *)
+Definition eps : Q := dist_close_to_zero_abs_tol.   (* is_close_to_zero: abs_tol (1e-9), translated from _internal/_math.py *)
 Definition rel_tol : Q := 1 # 1000000000.  (* math.isclose default rel_tol *)
 Definition czero (v : Q) : bool := Qle_bool (Qabs v) eps.
 Definition isclose (a b : Q) : bool := Qle_bool (Qabs (a - b)) (rel_tol * qmax (Qabs a) (Qabs b)).
